@@ -100,6 +100,33 @@ def run(F, R):
                 n += 1
                 reads_nulls = any((fld, a) == ("nulls", SE) for bb, acc, fld, a, line in g.field_accesses())
                 R.check(reads_nulls, "C08.R2", f"{g.path}:reverse()", "a comparator reverses on DESC but never consults SortExpr.nulls: NULL placement follows the direction instead of the NULLS FIRST/LAST clause", g.loc(c.bb), dict())
+                # what is reversed must be the VALUE comparison only: an Ordering::Less/Greater constant in the operand's
+                # slice is a NULL-placement decision, and reversing it makes NULLS FIRST/LAST follow the direction
+                consts = []
+                defs_ = g.defs()
+                seen_, work_ = set(), [c.args[0]]
+                while work_:
+                    o_ = work_.pop()
+                    if isinstance(o_, dict):
+                        continue
+                    q = op_place(o_) if (len(o_) > 1 and o_[1] == ":") else o_
+                    if not q:
+                        continue
+                    l_ = place_local(q)
+                    if l_ in seen_:
+                        continue
+                    seen_.add(l_)
+                    for bb_, kind_, pay_ in defs_.get(l_, []):
+                        if kind_ == "call":
+                            continue
+                        dst_, rv_, line_ = pay_
+                        if rv_[0] == "agg" and rv_[1] in ("adt:std::cmp::Ordering::Less", "adt:std::cmp::Ordering::Greater"):
+                            consts.append(rv_[1].rsplit("::", 1)[-1])
+                        elif rv_[0] == "use":
+                            work_.append(rv_[1])
+                        elif rv_[0] in ("ref", "cast"):
+                            work_.append(rv_[2])
+                R.check(not consts, "C08.R2", f"{g.path}:reverse()-operand", f"DESC reverses an ordering that was chosen by NULL placement (constants {sorted(set(consts))} flow into reverse()): with a DESC key NULLS FIRST/LAST is inverted in this comparator, while the per-run sort honours the clause", g.loc(c.bb), dict())
     R.floor("C08.R2", "direction-driven comparator sites", n, 3)
 
     # ---- R5
